@@ -90,11 +90,21 @@ def _plain(a):
     return type(a).__name__
 
 LATEST = {}
+CLOG = []
+
+def _snap(a):
+    """the value as it is NOW (lists are mutable: `x += ...` changes what an earlier entry would show)"""
+    if isinstance(a, list):
+        return [_snap(x) for x in a]
+    if isinstance(a, tuple):
+        return tuple(_snap(x) for x in a)
+    return a
 
 def BL(name, value):
     """twin only: record one binding (and the latest value of every variable, in binding order)"""
-    BLOG.append((name, value))
+    BLOG.append((name, _snap(value)))
     LATEST[name] = value
+    CLOG.append({k: _snap(v) for k, v in LATEST.items()})
     return value
 '''
 
@@ -111,7 +121,7 @@ class Gen:
         self.features = features or {
             "tuple", "star", "nested", "attr", "sub", "chain", "aug", "ann", "for", "while", "if", "try",
             "with", "walrus", "import", "def", "class", "lambda", "comp", "global", "return", "raise",
-            "breakcont", "decl",
+            "breakcont", "decl", "auglist",
         }
         self.nparams = nparams
         self.is_generator = False
@@ -160,7 +170,7 @@ class Gen:
         rng = self.rng
         choices = ["assign"] * 5
         for f, w in (("tuple", 2), ("star", 1), ("nested", 1), ("attr", 1), ("sub", 1), ("chain", 1), ("aug", 2),
-                     ("ann", 2), ("import", 1), ("expr", 1), ("decl", 0), ("walrus", 1), ("undef", 0)):
+                     ("ann", 2), ("import", 1), ("expr", 1), ("decl", 0), ("walrus", 1), ("undef", 0), ("auglist", 1)):
             if f in F or f == "expr" or f in self.weights:
                 choices += [f] * self.weights.get(f, w)
         if depth < 2:
@@ -188,13 +198,26 @@ class Gen:
                 bound | set(vs)
         if kind == "star":
             vs = rng.sample(VARS, 2)
-            return ("assign", [("tuple", [("name", vs[0]), ("star", vs[1])])],
+            tg = [("name", vs[0]), ("star", vs[1])]
+            if rng.random() < 0.4:
+                tg.reverse()          # *init, last = ...
+            return ("assign", [("tuple", tg)],
                     "T(%d, %r, %d)" % (self.nk(), rng.choice(["tuple", "list", "gen"]), rng.randrange(1, 4))), \
                 bound | set(vs)
         if kind == "nested":
             vs = rng.sample(VARS, 3)
-            return ("assign", [("tuple", [("name", vs[0]), ("tuple", [("name", vs[1]), ("name", vs[2])])])],
+            inner = ("tuple", [("name", vs[1]), ("name", vs[2])])
+            if rng.random() < 0.4:
+                # the nested target first: (b, c), a = ...
+                return ("assign", [("tuple", [inner, ("name", vs[0])])],
+                        "(T(%d, 'tuple', 2), %s)" % (self.nk(), self.expr(bound))), bound | set(vs)
+            return ("assign", [("tuple", [("name", vs[0]), inner])],
                     "(%s, T(%d, 'tuple', 2))" % (self.expr(bound), self.nk())), bound | set(vs)
+        if kind == "auglist":
+            # in-place operators on an aliased list: `+=` extends the object, `+` would rebind
+            vs = rng.sample(VARS, 2)
+            return ("auglist", vs[0], vs[1], self.nk(), rng.choice(["tuple", "list", "gen"]), rng.randrange(0, 3),
+                    self.nk()), bound | set(vs)
         if kind == "attr":
             return ("assign", [("attr", "O", rng.choice(["a", "b"]))], self.expr(bound)), bound
         if kind == "sub":
@@ -237,6 +260,12 @@ class Gen:
             shape = rng.choice(["name", "name", "tuple"])
             if shape == "name":
                 tgt, it, bnew = ("name", v), "T(%d, %r, %d)" % (self.nk(), rng.choice(["list", "gen", "tuple"]), rng.randrange(0, 4)), {v}
+            elif rng.random() < 0.3:
+                # ((a, b), c) as loop target: pairs of (pair, scalar)
+                vs = rng.sample(VARS, 3)
+                tgt = ("tuple", [("tuple", [("name", vs[0]), ("name", vs[1])]), ("name", vs[2])])
+                it = "[(p, %d) for p in T(%d, 'nested', %d)]" % (rng.randrange(0, 9), self.nk(), rng.randrange(0, 3))
+                bnew = set(vs)
             else:
                 vs = rng.sample(VARS, 2)
                 tgt, it, bnew = ("tuple", [("name", vs[0]), ("name", vs[1])]), "T(%d, 'nested', %d)" % (self.nk(), rng.randrange(0, 3)), set(vs)
@@ -272,7 +301,8 @@ class Gen:
             return ("with", "CM(%d%s)" % (self.nk(), ", True" if rng.random() < 0.3 else ""), tgt, body), bound
         if kind == "def":
             name = rng.choice(["inner", "helper"])
-            return ("def", name, "q", [("return", "q + %s" % self.expr(bound, 2))]), bound | {name}
+            prm = rng.choice(["q", "q", "q"] + VARS + ["GLOB1"])
+            return ("def", name, prm, [("return", "%s + %s" % (prm, self.expr(bound - {prm}, 2)))]), bound | {name}
         if kind == "class":
             name = rng.choice(["Cls", "Rec"])
             return ("class", name, [("assign", [("name", "field")], self.expr(bound, 2))]), bound | {name}
@@ -350,6 +380,15 @@ def render(fn, twin=False, subst=None, ann_params=None, decl=None):
             elif k == "aug":
                 lines.append("%s%s %s= %s" % (ind, target_text(s[1]), s[2], s[3]))
                 lines.extend(post_bind(target_names(s[1]), ind))
+            elif k == "auglist":
+                # a = T(..'list'..); b = a; a += T(..); H(k, b)
+                lines.append("%s%s = T(%d, 'list', 2)" % (ind, s[1], s[3]))
+                lines.extend(post_bind([s[1]], ind))
+                lines.append("%s%s = %s" % (ind, s[2], s[1]))
+                lines.extend(post_bind([s[2]], ind))
+                lines.append("%s%s += T(%d, %r, %d)" % (ind, s[1], s[6], s[4], s[5]))
+                lines.extend(post_bind([s[1]], ind))
+                lines.append("%sH(%d, %s, %s)" % (ind, s[6] + 1000, s[2], s[1]))
             elif k == "ann":
                 if s[3] is None and decl is not None:
                     # twin of a declaration: what ptera's documented semantics says happens there
@@ -473,6 +512,8 @@ def bound_names(fn):
                 names.extend(target_names(s[1]))
             elif k == "walrus":
                 names.extend([s[2], s[1]])
+            elif k == "auglist":
+                names.extend([s[1], s[2]])
             elif k == "ann" and s[3] is not None:
                 names.append(s[1])
             elif k == "import":
